@@ -336,10 +336,12 @@ impl Decoder {
                 // RC4 cannot be keyed with an empty key (`Rc4::new` asserts)
                 err!(other!("invalid key length {}", key_bits));
             }
+            // /EncryptMetadata has a meaning from revision 4 on only; before that everything is encrypted
+            let encrypt_metadata = dict.encrypt_metadata || level < 4;
             let key = key_derivation_user_password_rc4(level, key_size, dict, id, pass);
 
             if check_password_rc4(level, dict.u.as_bytes(), id, &key[..std::cmp::min(key_size, 16)]) {
-                let decoder = Decoder::new(key, key_size, method, dict.encrypt_metadata);
+                let decoder = Decoder::new(key, key_size, method, encrypt_metadata);
                 Ok(decoder)
             } else {
                 let password_wrap_key = key_derivation_owner_password_rc4(level, key_size, pass)?;
@@ -363,7 +365,7 @@ impl Decoder {
                 );
 
                 if check_password_rc4(level, dict.u.as_bytes(), id, &key[..key_size]) {
-                    let decoder = Decoder::new(key, key_size, method, dict.encrypt_metadata);
+                    let decoder = Decoder::new(key, key_size, method, encrypt_metadata);
                     Ok(decoder)
                 } else {
                     Err(PdfError::InvalidPassword)
